@@ -16,15 +16,16 @@ open Opcua Opcua.Mon
 
 /-! ### (A) the right node -/
 
-/-- For every history of AddMonitorItems / RemoveMonitorItems calls — any per-item results,
-    failing calls, unknown items, and requests that share one `*ua.MonitoringParameters`
-    object —: whatever a server item sends, the message is delivered under the node that
+/-- For every history of AddMonitorItems / RemoveMonitorItems calls and reconnects that
+    recreate the subscription from the stored request objects — any per-item results,
+    failing calls, unknown items, requests that share one `*ua.MonitoringParameters`
+    object, failed recreations —: whatever a server item sends, the message is delivered under the node that
     item samples, or as a "handle not found" error (item removed meanwhile), never under
     another node. -/
 theorem C28_node (ops : List Op) :
     ∀ it ∈ (runOps St.empty ops).srv, ∀ n, deliver (runOps St.empty ops) it = some n → n = it.node := by
   intro it hit n hd
-  exact ((invA_runOps ops St.empty invA_empty).2 it hit).2 n hd
+  exact ((invA_runOps ops St.empty invA_empty).2.1 it hit).2 n hd
 
 /-- client handles are never reused: every handle of a call is above everything handed
     out before, and the handles of one call are pairwise different -/
@@ -36,6 +37,39 @@ theorem C28_handles_fresh (s : St) (reqs : List Req) (r : Req) (h : Nat)
 theorem C28_handles_bounded (ops : List Op) (k : Nat) (n : Node)
     (h : (runOps St.empty ops).handles k = some n) : k ≤ (runOps St.empty ops).next :=
   (invA_runOps ops St.empty invA_empty).1 k n h
+
+/-- Recreation keeps the handles: the items a recreated subscription has on the server carry
+    exactly (node, client handle) pairs of the create requests stored before — each request
+    object still holds the handle written when it was built (its own copy of the parameters),
+    so recreated items cannot collide with each other or with handles handed out later. -/
+theorem C28_recreate_keeps_handles (s : St) (order : List Nat) :
+    ∀ it ∈ (recreate s order true).srv, ∃ e ∈ s.stored, it.node = e.node ∧ it.handle = e.handle := by
+  intro it hit
+  simp only [recreate, if_true, List.mem_map] at hit
+  obtain ⟨x, hx, rfl⟩ := hit
+  obtain ⟨e, he, h1, h2⟩ := mem_freshIds hx
+  simp only [List.mem_filterMap] at he
+  obtain ⟨k, _, hf⟩ := he
+  exact ⟨e, List.mem_of_find?_eq_some hf, h1, h2⟩
+
+/-- client handles are a uint32 counter starting at 100: as long as fewer than 2^32 − 101
+    handles have been handed out (`next < 2^32`) no handle has wrapped around, which is the
+    standing hypothesis of the model (`Nat` handles); `C28_handles_bounded` shows every
+    handle in use is at most `next` -/
+theorem C28_no_wrap (ops : List Op) (hw : (runOps St.empty ops).next < 4294967296) (k : Nat) (n : Node)
+    (h : (runOps St.empty ops).handles k = some n) : k < 4294967296 :=
+  Nat.lt_of_le_of_lt ((invA_runOps ops St.empty invA_empty).1 k n h) hw
+
+/-- a reconnect in the middle of a history: items created with a shared parameters object,
+    one refused item, a recreation (map order 2, 0, 1), a later add — every server item is
+    still delivered under its own node and the refused item's request (key 0), which is
+    re-sent and now accepted, is delivered as "handle not found" -/
+example :
+    let s := runOps St.empty [.add [⟨0, some 7⟩, ⟨1, some 7⟩, ⟨2, none⟩] [true, true, false],
+                              .recreate [2, 0, 1] true, .add [⟨3, none⟩] [true]]
+    s.srv = [⟨3, 1, 102⟩, ⟨4, 2, 103⟩, ⟨5, 0, 101⟩, ⟨6, 3, 104⟩] ∧
+    s.srv.map (deliver s) = [some 1, none, some 0, some 3] := by
+  decide
 
 /-- the former finding C28.shared-params-handle-alias, now repaired: two requests that
     point to the same MonitoringParameters object go to the server with their own
